@@ -2,7 +2,7 @@
    Directives: ExtrOcamlBasic only (bool, option, list, prod, unit, sumbool mapped to
    OCaml's own; nat, positive, Z, Q stay the extracted inductive types). *)
 From Coq Require Import ZArith QArith List Extraction ExtrOcamlBasic.
-From Inf Require Import base.ExtrBase model.CodecM model.StoreM.
+From Inf Require Import base.ExtrBase gen.ParamsC14 model.CodecM model.StoreM.
 Extraction Language OCaml.
-Extraction "extract/c14_model.ml" extr_anchor store load move_list write_txt archive_dir accepted_dir
+Extraction "extract/c14_model.ml" extr_anchor store store_gen store_keeps_own clean_dir load move_list write_txt archive_dir accepted_dir
   basename pjoin dirname stem reload mstep mrun mtrace init_state full_dir parse_int int_str.
